@@ -6,7 +6,7 @@
    of thread ids (with the select alternative taken) and environment firings; `run` skips what is not enabled,
    so the theorems below quantify over EVERY interleaving of every trigger with every other one. *)
 From Coq Require Import NArith String List Bool Arith.
-From UPF Require Import Base.LTS Model.Teardown Proofs.TeardownInv Proofs.TeardownProofs Proofs.TeardownForget Proofs.TeardownBounded
+From UPF Require Import Base.LTS Model.Teardown Proofs.TeardownInv Proofs.TeardownProofs Proofs.TeardownForget Proofs.TeardownLive Proofs.TeardownBounded
   Proofs.TeardownB1 Proofs.TeardownB2 Proofs.TeardownB3.
 Import ListNotations.
 Open Scope nat_scope.
@@ -131,6 +131,17 @@ Proof.
   exists (one_live [7%N]), [EStop], w_exit_early. destruct stop_exit_before_cleanup as (_ & H2 & H3 & H4 & _). auto.
 Qed.
 Print Assumptions C10_once_refuted_at_exit.
+
+(* partial, EVERY number of established associations, every session list, every combination of release / second
+   release / in-flight request / read timeout / heartbeat failure, EVERY schedule (no Stop): whenever no thread can
+   move, the state is healthy - every association is either completely gone (all goroutines returned) or waits
+   for input with nothing half-done (nobody inside Shutdown), and the node waits in its select *)
+Theorem C10_no_deadlock_partial : forall cfg ev sch,
+  no_stop ev -> all_established cfg ->
+  (forall l, In l (thread_labels false (run (init cfg ev) sch)) -> step (run (init cfg ev) sch) l = None) ->
+  quiescent_ok (run (init cfg ev) sch) = true.
+Proof. exact no_deadlock_without_stop. Qed.
+Print Assumptions C10_no_deadlock_partial.
 
 (* partial, decided by the reflective explorer (explore_sound) on the instances below - EVERY schedule of each:
    no panic; whenever no thread can move the state is healthy (ended associations completely gone and - if they
